@@ -115,6 +115,10 @@ def recipient(r, depth=0):
     }
     if depth < 2 and r.random() < 0.3:
         rec["recipients"] = [recipient(r, depth + 1) for _ in range(r.randrange(1, 3))]
+        if r.random() < 0.15:
+            # prefix-keyed position: further keys with the prefix denote further list elements, in description order
+            for lab in r.sample(["recipients2", "recipients10", "recipientsB", "recipientsA"], r.randrange(1, 3)):
+                rec[lab] = [recipient(r, 2)]
     return rec
 
 
@@ -312,8 +316,23 @@ def envelope(r, depth=0, maxdep=2, cwt=True, p_dep=0.3, sev_bias=None, uniq=""):
         if r.random() < 0.4:
             man[k] = sequence(r, n)
     env = {"suit-authentication-wrapper": {"SuitDigest": digest(r, filled=False)}}
-    for i in range(r.choice([0, 0, 0, 1, 2])):
-        env["suit-authentication-wrapper"][f"SuitAuthentication{i}"] = auth_block(r, cwt)
+    c = r.random()
+    if c < 0.04:
+        # many blocks: numeric suffixes reach two digits (description order, not lexicographic order, is the wire order)
+        start = r.choice([0, 1])
+        labels = [f"SuitAuthentication{i}" for i in range(start, start + r.randrange(10, 14))]
+    elif c < 0.10:
+        labels = r.sample(["SuitAuthenticationInternal", "SuitAuthenticationExternal", "SuitAuthentication10",
+                           "SuitAuthentication2", "SuitAuthenticationB", "SuitAuthenticationA", "SuitAuthentication",
+                           "SuitAuthentication_z"], r.randrange(2, 5))
+    else:
+        labels = [f"SuitAuthentication{i}" for i in range(r.choice([0, 0, 0, 1, 2]))]
+    for lab in labels:
+        env["suit-authentication-wrapper"][lab] = auth_block(r, cwt and len(labels) < 5)
+    if labels and r.random() < 0.15:
+        # the digest may be written after the blocks in the description: it still is the first wrapper element
+        aw = env["suit-authentication-wrapper"]
+        aw["SuitDigest"] = aw.pop("SuitDigest")
     env["suit-manifest"] = man
     p_sev = 0.25 if sev_bias is None else sev_bias
     for k in SEV:
